@@ -12,6 +12,7 @@ Created on 14 Feb 2022
 from datetime import datetime, timedelta
 
 from pyrtcm.rtcmtypes_core import COEFFS, GNSSMAP, RTCM_DATA_FIELDS
+from pyrtcm.rtcmtypes_get_msm import RTCM_PAYLOADS_GET_MSM
 
 
 def att2idx(att: str) -> int:
@@ -192,7 +193,7 @@ def parse_msm(msg: object) -> tuple:
     :rtype: tuple
     """
 
-    if not msg.ismsm:
+    if not msg.ismsm or msg.identity not in RTCM_PAYLOADS_GET_MSM:
         return None
 
     meta = {}
